@@ -391,7 +391,7 @@ func installSpecials(in *Interp, p *Pkg) {
 				var herr *Err
 				switch h.Fn.Kind {
 				case FnFunction:
-					hr, herr = in.Apply(h, hargs, form.Src, "")
+					hr, herr = in.Apply(h, hargs, nil, "") // called by the operator on the program's behalf
 				default:
 					herr = in.unsure("special handler")
 				}
